@@ -668,7 +668,7 @@ var mapItemKeys = map[string][2]string{}
 var mapItemMu sync.Mutex
 
 func (x *Exec) registerMapItem(m string, pkg *types.Package) {
-	if !strings.HasPrefix(m, "map:") {
+	if !strings.HasPrefix(m, "map:") || m == "map:*" {
 		return
 	}
 	mapItemMu.Lock()
@@ -696,6 +696,10 @@ func (x *Exec) registerMapItem(m string, pkg *types.Package) {
 }
 
 func modifiesMatch(m, k string) bool {
+	if m == "map:*" {
+		// the contents of maps of every type
+		return strings.HasPrefix(k, "Mhas_") || strings.HasPrefix(k, "Mval_")
+	}
 	if strings.HasPrefix(m, "map:") {
 		mapItemMu.Lock()
 		ks := mapItemKeys[m]
@@ -1515,6 +1519,7 @@ func (x *Exec) frameCall(st *State, callee, item string) {
 		}
 	}
 	x.oblige(st, "FRAME", fmt.Sprintf("frame(call of %s modifies %s)", callee, item), False, "callee may modify memory outside this function's modifies clause")
+	x.frameAcc(st, False)
 }
 
 // bytesAsStrings: a deterministic library function of a []byte argument
